@@ -109,6 +109,9 @@ func cmsSemantics(env *Env, v Variant, blob []byte, embed func(nb []byte) ([]byt
 	for _, bm := range muts {
 		d, err := embed(bm.Blob)
 		if err != nil {
+			tallyMu.Lock()
+			semSkipped = append(semSkipped, fmt.Sprintf("%s %s/%s: %v", v, bm.Class, bm.Site, err))
+			tallyMu.Unlock()
 			continue
 		}
 		out = append(out, SemMut{Class: bm.Class, Site: bm.Site, Data: d, Assert: true, Why: bm.Why})
@@ -116,6 +119,5 @@ func cmsSemantics(env *Env, v Variant, blob []byte, embed func(nb []byte) ([]byt
 	return out
 }
 
-var builders = []builder{
-	{name: "pe", fn: buildPE},
-}
+var semSkipped []string
+
